@@ -91,6 +91,7 @@ Finished(s) == IF s.err # "ok" THEN s.err
 \* r.sys: [natoms, ntypes, style, tilted, atoms: per id <<type, mol, q, diameter, density, <<x,y,z>> >> (ints, unwrapped), vel: per id <<vx,vy,vz>> or <<>>,
 \*         a, b, c: cell rows, o: origin, pbc]   all at the printed precision r.p (value * 10^p), slack r.slack units
 Close(a, b, sl) == Abs(a - b) <= sl
+TokenLimit == 32000
 InsideTri(p, lo, hi, tilt, sl) ==
     \* LAMMPS triclinic box: x = xlo + lx*lamx + xy*lamy + xz*lamz, y = ylo + ly*lamy + yz*lamz, z = zlo + lz*lamz ; 0 <= lam <= 1.
     \* Back-substitution with integer division (each division rounds by at most one unit, added to the slack) keeps 32-bit products.
@@ -128,6 +129,12 @@ VerdictData(r) ==
     ELSE IF Has(cols, "density") /\ (\E i \in 1..Len(g.rows) : ~Close(g.rows[i].v[IndexOf(cols, "density")], y.atoms[g.rows[i].v[1]][5], sl)) THEN "density_not_in_the_requested_units"
     ELSE IF \E i \in 1..Len(g.rows) : \E k \in 1..5 : Has(cols, OtherNames[k]) /\
               ~Close(g.rows[i].v[IndexOf(cols, OtherNames[k])], y.atoms[g.rows[i].v[1]][8][k], sl) THEN "style_specific_column_wrong_or_misplaced"
+    \* the systems of this model extend to at most 30 length units (30000 at the printed precision) from the coordinate origin in the
+    \* file's own unit: a cell or position value beyond TokenLimit is a value in some other unit.  (Also keeps the products below in 32 bits.)
+    ELSE IF (\E ax \in 1..3 : Abs(g.lo[ax]) > TokenLimit \/ Abs(g.hi[ax]) > TokenLimit \/ Abs(g.tilt[ax]) > TokenLimit)
+            \/ (\E i \in 1..Len(g.rows) : LET row == g.rows[i]  ix == IndexOf(cols, "x") IN
+                    (\E k \in 0..2 : Abs(row.v[ix+k]) > TokenLimit) \/ (Len(row.v) = nc + 3 /\ \E k \in 1..3 : Abs(row.v[nc+k]) > 1000))
+         THEN "cell_or_position_value_far_beyond_the_extent_of_the_system"
     ELSE IF \E i \in 1..Len(g.rows) : LET row == g.rows[i]  ix == IndexOf(cols, "x")
                                             p == <<row.v[ix], row.v[ix+1], row.v[ix+2]>> IN
               ~InsideTri(p, g.lo, g.hi, g.tilt, 2*sl) THEN "atom_outside_the_written_bounds"
